@@ -349,5 +349,14 @@ pub fn run(rec: &mut Rec, rng: &mut Rng, thorough: bool) {
             abs_path_case(rec, u.as_bytes(), true);
         }
     }
+    // very long URIs (the one-shot parser accepts request lines of any length): offsets around 2^8 and 2^16
+    rec.case("uri-long");
+    for len in [254usize, 255, 256, 257, 65527, 65528, 65529, 65530, 65535, 65536, 65537, 70000, 131073] {
+        let a = "a".repeat(len);
+        for u in [format!("http://{}/index", a), format!("http://{}", a), format!("/{}", a), a.clone(), format!("http://{}/x/{}", a, "b".repeat(len.min(300)))] {
+            rec.nontrivial_op();
+            abs_path_case(rec, u.as_bytes(), true);
+        }
+    }
     let _ = n;
 }
